@@ -16,4 +16,13 @@ MUTANTS = [
     ("bind-on-bcast1", ["C01"], A, "elif cls_dim.broadcastable and obj_size == 1:\n            pass", "elif cls_dim.broadcastable and obj_size == 1:\n            if type(cls_dim) is _NamedDim: single_memo.setdefault(cls_dim.name, 1)"),
     ("var-memo-not-updated", ["C01"], A, "variadic_memo[name] = (broadcastable, broadcast_shape)", "pass"),
     ("fixed-bcast-ignored", ["C01"], A, "if cls_dim.size != obj_size:", "if cls_dim.size != obj_size and not (cls_dim.size == 1):"),
+    ("float-no-bfloat16", ["C03"], A, "floats = float8 + [_bfloat16, _float16, _float32, _float64]", "floats = float8 + [_float16, _float32, _float64]"),
+    ("tf-name-from-str", ["C03"], A, "dtype = obj.dtype.as_numpy_dtype.__name__", "dtype = str(obj.dtype)"),
+    ("regex-search", ["C03"], A, "in_dtypes = bool(cls_dtype.match(dtype))", "in_dtypes = bool(cls_dtype.search(dtype))"),
+    ("regex-fullmatch", ["C03"], A, "in_dtypes = bool(cls_dtype.match(dtype))", "in_dtypes = bool(cls_dtype.fullmatch(dtype))"),
+    ("integer-no-uints", ["C03"], A, 'Integer = _make_dtype(uints + ints, "Integer")', 'Integer = _make_dtype(ints, "Integer")'),
+    ("bool_-dropped", ["C03"], A, "bools = [_bool, _bool_]", "bools = [_bool]"),
+    ("real-has-complex", ["C03"], A, 'Real = _make_dtype(floats + uints + ints, "Real")', 'Real = _make_dtype(floats + uints + ints + complexes, "Real")'),
+    ("torch-repr-split", ["C03"], A, '*_, dtype = repr(obj.dtype).rsplit(".", 1)', '*_, dtype = repr(obj.dtype).split(".", 1)'),
+    ("dtype-loop-no-break", ["C03"], A, "                if in_dtypes:\n                    break\n", ""),
 ]
